@@ -31,7 +31,7 @@ SPEC = {
     'with random tangents and variable_tangents incl. empty collections | nn.value_and_grad | nn.grad | nn.custom_vjp with a '
     'deliberately wrong backward rule). Compared exactly: primal outputs, aux, every cotangent / tangent (selected collections '
     'and inputs, incl. tree structure), the key set of the variable cotangent, the published mutable collections (publish-once), '
-    'error kinds. Non-trivial = the body reads at least one variable and one input; distinct = distinct canonical JSON.'
+    'error kinds; for a sample of vjp/jvp/value_and_grad cases also the outer jax.grad (all variable collections and inputs) of the scalarised results vs the same outer jax.grad through jax.vjp/jvp/value_and_grad of module.apply. Non-trivial = the body reads at least one variable and one input; distinct = distinct canonical JSON.'
   ),
   'trusted_base': [
     'hand-written Lean models lean/Flax/Model/LiftAD.lean, lean/Flax/Model/Lift.lean (tied to /repo by this correspondence run)',
@@ -42,6 +42,7 @@ SPEC = {
     'partial: derivatives themselves are JAX\'s; exact comparison only for polynomial integer-valued programs (|values| < 2^24 in float32)',
     'single-scope modules (multi_scope=False): no Module or Variable passed as attribute or argument',
     'bodies draw no rngs',
+    'second-order agreement (the nn.vjp / nn.jvp / nn.value_and_grad results differentiated again by an outer jax.grad w.r.t. every variable collection and input) is tied by correspondence only: the model has no derivative of a derivative (A-AD)',
   ],
   'model_partial': [
     'A-AD (automatic differentiation is an abstract structure): the theorems establish what is differentiated, not the derivative; the numbers are tied by the three-voice exact comparison only',
@@ -429,7 +430,7 @@ def covered(case):
 
 def check_case(ctx, drv, case):
   kind = case['kind']
-  li, _ = lifted_observe(case)
+  li, lctx = lifted_observe(case)
   ref = reference_observe(case)
   mo = model_observe(drv, case)
   cov = covered(case)
@@ -440,6 +441,8 @@ def check_case(ctx, drv, case):
   ctx.count('primal_shapes', '+'.join(case['primals']))
   ctx.count('lifted_outcome', li.get('error', 'ok'))
   ctx.count('covered_by_filters', cov)
+  if cov and 'error' not in li and kind in ('vjp', 'jvp', 'vag') and case.get('outer_grad'):
+    check_outer_grad(ctx, case, lctx)
   ctx.count('writes', 'yes' if lp.fn_wcols(case['fn']) else 'no')
   where = json.dumps(case)[:700]
 
@@ -535,6 +538,94 @@ def check_custom_under_grad(ctx, case):
   elif a[1][1] != [7 * x for x in b[1][1]]:
     ctx.violation('custom-backward-rule', f'nn.custom_vjp under jax.grad: gradients {a[1][1]} are not the user rule (7 x {b[1][1]})', case)
   ctx.count('custom_under_grad', 'ok')
+
+
+# ------------------------------------------------------------------------------------------------
+# second order: the lifted results as JAX *functions* of (variables, inputs)
+# ------------------------------------------------------------------------------------------------
+
+
+def _weighted(leaves):
+  """A fixed linear functional with distinct integer weights (keeps everything exactly representable)."""
+  return sum((i + 1) * jnp.sum(l) for i, l in enumerate(leaves)) if leaves else F(0)
+
+
+def check_outer_grad(ctx, case, lifted_ctx):
+  """Outer jax.grad, w.r.t. ALL variable collections and all inputs, through the results of nn.vjp / nn.jvp /
+  nn.value_and_grad (primal, aux and cotangents/tangent summed into a scalar) against the same outer jax.grad through
+  jax.vjp / jax.jvp / jax.value_and_grad of module.apply.  Second-order agreement is tied by this comparison only."""
+  kind = case['kind']
+  Mod, sub, variables, primals = lifted_ctx
+  mutable = case['mutable']
+  shapes = case['primals']
+  f = user_fn(case)
+
+  def pcall(self, *ps):
+    r = f(self, *ps)
+    return r if (case.get('has_aux', False) and kind != 'jvp') else (r, ())
+
+  PMod, _ = place(case, make_cls('PlainO', pcall))
+  sel_cols = [c for c in variables if c in case['view'] and (
+    lp.in_filter_json(case['vjp_variables'], c) if kind == 'vjp' else (kind == 'jvp' and bool(case['vt'].get(c))))]
+
+  def view_leaves(tree):  # variable cotangents at the level of the module's own scope, in a fixed order
+    out = []
+    for c in sorted(tree):
+      t = tree[c].get(sub, {}) if sub else tree[c]
+      out += [t[n] for n in sorted(t) if not hasattr(t[n], 'items')]
+    return out
+
+  def lifted_scalar(vs, *ps):
+    (y, aux, gv, gi), _ = apply_mod(Mod, vs, ps, mutable)
+    gvl = jax.tree.leaves(gv) if kind == 'jvp' else [gv[c][n] for c in sorted(gv) for n in sorted(gv[c])]
+    return _weighted(jax.tree.leaves(y) + jax.tree.leaves(aux) + gvl + jax.tree.leaves(gi))
+
+  def ref_scalar(vs, *ps):
+    def pure(vsel, *qs):
+      full = dict(vs)
+      full.update(vsel)
+      (y, aux), upd = apply_mod(PMod, full, qs, mutable)
+      return y, (aux, upd)
+
+    vsel = {c: vs[c] for c in sel_cols}
+    if kind == 'vjp':
+      y, bwd, (aux, _) = jax.vjp(pure, vsel, *ps, has_aux=True)
+      g = bwd(y_tree(case, case['ct']))
+      return _weighted(jax.tree.leaves(y) + jax.tree.leaves(aux) + view_leaves(g[0]) + jax.tree.leaves(tuple(g[1:])))
+    if kind == 'jvp':
+      vt = {}
+      for c in vsel:
+        tcoll = {n: F(t) for n, t in case['vt'][c].items()}
+        vt[c] = ({sub: tcoll, **{n: jnp.zeros_like(v) for n, v in vs[c].items() if n != sub}} if sub else tcoll)
+      tans = tuple(build_tree(shapes, case['tangents']))
+      y, ty = jax.jvp(lambda v, *qs: pure(v, *qs)[0], (vsel, *ps), (vt, *tans))
+      return _weighted(jax.tree.leaves(y) + jax.tree.leaves(ty))
+    (y, (aux, _)), g = jax.value_and_grad(lambda *qs: pure({}, *qs), argnums=tuple(range(len(ps))), has_aux=True)(*ps)
+    return _weighted(jax.tree.leaves(y) + jax.tree.leaves(aux) + jax.tree.leaves(tuple(g)))
+
+  argnums = tuple(range(len(primals) + 1))
+  a = lp.call(lambda: jax.value_and_grad(lifted_scalar, argnums=argnums)(variables, *primals))
+  b = lp.call(lambda: jax.value_and_grad(ref_scalar, argnums=argnums)(variables, *primals))
+  ctx.case(dict(case, sub='outer-grad'))
+  ctx.count('transform', kind + '/outer-grad')
+  where = json.dumps(case)[:700]
+  if a[0] != b[0] or (a[0] == 'err' and a[1] != b[1]):
+    ctx.violation(f'{kind}-outer-grad-outcome', f'jax.grad through nn.{kind}: {a if a[0] == "err" else "ok"} vs through jax.{kind} of module.apply: {b if b[0] == "err" else "ok"} on {where}', case)
+    return
+  if a[0] == 'err':
+    ctx.count('outer_grad', 'error:' + a[1])
+    return
+  ctx.count('outer_grad', 'ok')
+  (va, ga), (vb, gb) = a[1], b[1]
+  if to_int(va) != to_int(vb):
+    ctx.violation(f'{kind}-outer-grad-value', f'scalarised nn.{kind} results {to_int(va)} vs reference {to_int(vb)} on {where}', case)
+    return
+  la = jax.tree_util.tree_leaves_with_path(ga)
+  lb = jax.tree.leaves(gb)
+  for (path, x), y in zip(la, lb):
+    if to_int(x) != to_int(y):
+      ctx.violation(f'{kind}-outer-grad-differs', f'd/d{jax.tree_util.keystr(path)} of the nn.{kind} results (primal + cotangents as a function of variables and inputs) is {to_int(x)}, through jax.{kind} of module.apply it is {to_int(y)} on {where}', case)
+      return
 
 
 # ------------------------------------------------------------------------------------------------
@@ -638,6 +729,8 @@ def run(ctx):
   for kind, n in plan:
     for _ in range(n * scale):
       c = gen_case(rng, kind)
+      if kind in ('vjp', 'jvp', 'vag'):
+        c['outer_grad'] = rng.random() < {'vjp': 0.5, 'jvp': 0.3, 'vag': 0.3}[kind]
       if kind == 'custom':
         c['under_grad'] = not lp.fn_wcols(c['fn']) and c['placement'] == 'root'
       cases.append(c)
